@@ -6,7 +6,7 @@ PROPS = 'Props/C01.v'
 
 
 def gen_cases(rng, tier):
-    nbig, nsmall = (3, 80) if tier == 'quick' else (150, 1500)
+    nbig, nsmall = (6, 120) if tier == 'quick' else (150, 1500)
     cases = [dict(mode='laws', ops=[dict(op='w', kind=1, seed=rng.randrange(1, 1 << 20), len=wrlib.BS),
                                     dict(op='w', kind=1, seed=7, len=wrlib.BS),
                                     dict(op='w', kind=0, seed=0, len=0), dict(op='w', kind=2, seed=3, len=wrlib.BS),
@@ -66,8 +66,9 @@ CLAIM = dict(
     text='Machine-checked proof (Coq 8.16.1): for every script of Write/Flush/Wait/Close calls, level and gzip header that leaves room for a full block, the bytes the sequential writer machine emits '
          'are read back by a BGZF reader written from the specification as exactly the written data; for every writer concurrency and every schedule of the API goroutine, the emitter and the '
          'compressor goroutines the concurrent pipeline model delivers exactly the sequential bytes; compressBound(BlockSize) <= MaxBlockSize on the constants regenerated from the source and no '
-         'member reaches 64 KiB. The models are run against the implementation on every check.',
+         'member reaches 64 KiB; the sequential machine finishes every script. The models are run against the implementation on every check.',
     note='DEFLATE/inflate/CRC-32 are Section hypotheses (laws validated against compress/flate on every run). The reader side of the round trip is the specification reader of the model; '
-         'bgzf.Reader itself is exercised (all rd, mixed Read/ReadByte) but proved in C02. Fault-free underlying writer (faults: C09).',
+         'bgzf.Reader itself is exercised (all rd, mixed Read/ReadByte) but proved in C02. Fault-free underlying writer (faults: C09). '
+         'Theorems: bgzf_roundtrip, writer_seq_terminates, writer_conc_refines_seq, closed_writer_is_quiescent, member_fits; progress of the concurrent pipeline is not proved (C09).',
     technique='Coq proof over hand model tied by regenerated constants/skeleton + vm_compute correspondence + independent framing parser',
     design='6/C01')
